@@ -17,6 +17,7 @@ import (
 	"sync"
 	"time"
 
+	dhtnet "github.com/libp2p/go-libp2p-kad-dht/internal/net"
 	"github.com/libp2p/go-libp2p-kad-dht/internal/verifnet"
 	"github.com/libp2p/go-libp2p-kad-dht/internal/verifsim"
 	pb "github.com/libp2p/go-libp2p-kad-dht/pb"
@@ -268,6 +269,22 @@ type simEnv struct {
 // extra lets a check customise the responder for non-FIND_NODE requests.
 type respondHook func(p *lkPeer, n int, req *pb.Message, base *pb.Message) *verifnet.Reply
 
+// what the real sender returns for a silent peer is internal/net.ErrReadTimeout itself
+func init() { verifnet.ErrSimTimeout = dhtnet.ErrReadTimeout }
+
+// failFlavour is the error a failing peer's exchange ends with, fixed per peer: a plain error (a reset stream), one that wraps
+// context.DeadlineExceeded although the caller's context is alive (a negotiation or write deadline further down), or one that
+// wraps the sender's read timeout.
+func failFlavour(poolIdx int) error {
+	switch poolIdx % 4 {
+	case 1:
+		return fmt.Errorf("verifnet: failed to negotiate protocol: %w", context.DeadlineExceeded)
+	case 2:
+		return fmt.Errorf("verifnet: exchange failed: %w", dhtnet.ErrReadTimeout)
+	}
+	return nil
+}
+
 func newSimEnv(s *lkSc, hook respondHook, extra ...Option) (*simEnv, error) {
 	pp := ppool()
 	h := verifnet.NewHost(s.selfID(), []ma.Multiaddr{ma.StringCast("/ip4/10.200.0.1/tcp/4001")})
@@ -293,7 +310,7 @@ func newSimEnv(s *lkSc, hook respondHook, extra ...Option) (*simEnv, error) {
 		lat := time.Duration(lp.LatMs) * time.Millisecond
 		switch lp.Req {
 		case "fail":
-			return verifnet.Reply{Fail: true, Latency: lat}
+			return verifnet.Reply{Fail: true, Latency: lat, FailErr: failFlavour(poolIdxOf(p))}
 		case "silent":
 			return verifnet.Reply{Silent: true, Latency: lat}
 		}
